@@ -3622,7 +3622,11 @@ class BoutMesh(Mesh):
                 if f_region._centre_array is not None:
                     f.centre[self.region_indices[region.myID][0], :] = f_region.centre
                 if f_region._xlow_array is not None:
-                    f.xlow[self.region_indices[region.myID]] = f_region.xlow[:-1, :]
+                    # x-direction arrays have no y-extent: use only the x-slice of the
+                    # region (its y-slice would select nothing unless it starts at 0)
+                    f.xlow[self.region_indices[region.myID][0], :] = f_region.xlow[
+                        :-1, :
+                    ]
                 if f_region._ylow_array is not None:
                     raise ValueError("Cannot have an x-direction array at ylow")
                 if f_region._corners_array is not None:
